@@ -759,4 +759,34 @@ theorem aclOkB_sound {s : Store} {acl : Nat} (h : aclOkB s acl = true) : AclOk s
     · cases h
   · cases h
 
+/-! ### AddAllNoError and derived children -/
+
+theorem exec_insertDups (ds : List Nat) : ∀ (c p : Store) (sv : List Store) (f : Bool),
+    exec { committed := c, pending := some p, saves := sv, failed := f }
+      (ds.map (fun d => Call.insertDup ⟨.changes, d⟩)) =
+    { committed := c, pending := some p, saves := sv, failed := f } := by
+  induction ds with
+  | nil => intro c p sv f; rfl
+  | cons d rest ih =>
+    intro c p sv f
+    simp only [List.map_cons, exec_cons]
+    have : step { committed := c, pending := some p, saves := sv, failed := f } (Call.insertDup ⟨.changes, d⟩) =
+        { committed := c, pending := some p, saves := sv, failed := f } := by
+      simp [step, applyWrite]
+    rw [this, ih]
+
+theorem committed_addAllNoError (s : Store) (t : Nat) (dups : List Nat) (chs : List NewChange)
+    (heads : List Nat) (cs : Nat) (hf : Fresh s chs) :
+    exec (Db.idle s) (traceOf (.addAllNoError t dups chs heads cs)) =
+      { committed := postAddAll s t chs heads cs } := by
+  simp only [traceOf, exec_append, exec_cons, exec_nil, step_begin_idle]
+  rw [exec_insertDups, exec_addAllBody _ _ _ _ _ _ _ _ hf]
+  simp [step]
+
+theorem committed_treeCreateChild (s : Store) (t : Nat) (q : Bool) (h : s.get ⟨.changes, t⟩ = none) :
+    exec (Db.idle s) (traceOf (.treeCreateChild t q)) = { committed := postTreeCreate s t } := by
+  simp only [traceOf, exec_append, exec_cons, exec_nil, step_begin_idle, createStorageCalls_eq]
+  rw [exec_addAllBody _ _ _ _ _ _ _ _ (fresh_root h)]
+  cases q <;> simp [exec, step, applyWrite, postTreeCreate]
+
 end AnySync.Store
